@@ -206,6 +206,9 @@ class Cfg:
                     from_operand(r["o"], dep - 1)
                 elif r["k"] == "cast":
                     from_operand(r["o"], dep - 1)
+                elif r["k"] in ("ref", "rawptr") and all(pr["k"] == "deref" for pr in r["p"]["p"]):
+                    # &(*_x) / &_x : the value behind the reference
+                    from_local(r["p"]["l"], dep - 1)
                 else:
                     out.add(("expr", r["k"] + ":" + str(r.get("op", "")), blk, l))
         if isinstance(operand_or_local, int):
